@@ -4,8 +4,9 @@
 cd "$(dirname "$0")/.."
 SEED="${1:-1}"; export VERIF_SEED=$SEED
 OUT=seeded/RECHECK.tsv; [ "$SEED" != "1" ] && OUT=seeded/RECHECK-seed$SEED.tsv
+OUT=${RECHECK_OUT:-$OUT}   # optional: RECHECK_OUT, SEED_DIRS (list of seeded/<ID>-v<n> dirs), TS_DIR, VERIF_SRC for parallel streams
 : > $OUT
-for d in seeded/C*-v*; do
+for d in ${SEED_DIRS:-seeded/C*-v*}; do
   s=$(basename $d); id=${s%%-*}
   case "$s" in C06-v4) id=C03;; esac
   line=$(tools/try_seed_scratch.sh $d/patch.diff - $id 2>&1 | grep "^check $id")
